@@ -7,6 +7,7 @@ import (
 	"strings"
 	"sync"
 	"testing"
+	"time"
 
 	"verif/mon"
 )
@@ -91,6 +92,9 @@ func genParams(i int64, r *rand.Rand, thorough bool) *params {
 		p.lenProfile = 3
 		total = 2400
 	}
+	if p.pace == 2 || p.intensity == 3 {
+		total /= 2 // sleeping writers / heavy tap delays: fewer packets, same number of phases
+	}
 	unit := total / 8
 
 	who := func() int { return 1 + r.IntN(3) }
@@ -144,6 +148,22 @@ func errClass(e string) string {
 	return strings.ReplaceAll(e, " ", "_")
 }
 
+// rootError picks the error that names a protocol failure (the others are
+// usually its consequences: closed pipe, EOF) and drops the reporter prefix.
+func rootError(errs []string) string {
+	pick := errs[0]
+	for _, e := range errs {
+		if strings.Contains(e, "ssh: ") {
+			pick = e
+			break
+		}
+	}
+	if k := strings.Index(pick, ": "); k >= 0 {
+		pick = pick[k+2:]
+	}
+	return pick
+}
+
 func TestC31(t *testing.T) {
 	m := mon.New(t, "C31")
 	defer m.Done()
@@ -167,7 +187,11 @@ func TestC31(t *testing.T) {
 		}
 		p := genParams(i, r, m.Thorough())
 		seed := r.Uint64()
+		t0 := time.Now()
 		out := runConn(p, seed, r)
+		if debugHold {
+			fmt.Printf("DEBUG case %d took %v: %s %v\n", i, time.Since(t0), p.class(), p.phases)
+		}
 		if out.setupErr != nil {
 			m.Violation("initial-key-exchange-failed", map[string]any{"params": p.class(), "error": out.setupErr.Error()})
 			return
@@ -188,6 +212,7 @@ func TestC31(t *testing.T) {
 			m.Count("calls_in_flight_when_full_round_ended", a.blockedAtFull[s])
 			m.Count("overflow_blocked_confirmed", int(out.ovfConfirmed[s]))
 			m.Count("overflow_forcing_gave_up", int(out.ovfGaveUp[s]))
+			m.Count("overflow_all_writers_still_parked_from_previous_round", int(out.ovfCarry[s]))
 			m.Count("duplex_writes_that_blocked", int(out.duplexBlocks[s]))
 			if a.strict[s] == 1 {
 				m.Count("strict_kex_directions", 1)
@@ -220,7 +245,7 @@ func TestC31(t *testing.T) {
 		if i < 6 {
 			m.Sample(map[string]any{"case": i, "params": p.class(), "phases": fmt.Sprint(p.phases), "rekeys": a.rounds,
 				"initiated_client/server/simultaneous": fmt.Sprint(a.initBy[0], a.initBy[1], a.simultaneous),
-				"sent": a.sent, "delivered": a.delivered, "max_queued": a.maxQueued, "rounds_full": a.roundsFull})
+				"sent":                                 a.sent, "delivered": a.delivered, "max_queued": a.maxQueued, "rounds_full": a.roundsFull})
 		}
 
 		base := map[string]any{"case": i, "params": p.class(), "phases": fmt.Sprint(p.phases), "seed": seed}
@@ -242,7 +267,7 @@ func TestC31(t *testing.T) {
 			m.Violation(out.hang.key, with(out.hang.detail))
 		}
 		if len(out.connErrs) > 0 {
-			m.Violation("connection-error:"+errClass(out.connErrs[0]), with(map[string]any{"errors": out.connErrs}))
+			m.Violation("connection-error:"+errClass(rootError(out.connErrs)), with(map[string]any{"errors": out.connErrs}))
 		}
 		if out.inconclusive != "" && out.hang == nil && len(a.findings) == 0 && len(out.connErrs) == 0 {
 			m.Inconclusive(fmt.Sprintf("case %d: %s", i, out.inconclusive))
